@@ -156,6 +156,9 @@ pub fn run_docprop(ctx: &mut Ctx, p: DocProp) {
         sh.push(b.term, b.descr);
         evaluations += 1;
     }
+    // rendered texts sampled for the Coq re-parser (coq/Model/Reparse.v) against the Rust one
+    let mut texts: Vec<String> = vec![];
+    let text_budget = if ctx.thorough { 640 } else { 96 };
     let mut cases: Vec<(Vec<Vec<Node>>, &'static str)> = vec![];
     let mut exh_note = String::new();
     if p.exhaustive {
@@ -217,6 +220,13 @@ pub fn run_docprop(ctx: &mut Ctx, p: DocProp) {
         if nodes >= 3 {
             distinct.insert(format!("{:?}", docs));
         }
+        for (_, r) in &b.renders {
+            if let Ok(t) = r {
+                if texts.len() < text_budget && (evaluations as usize) % 7 == 3 && t.len() < 6000 {
+                    texts.push(t.clone());
+                }
+            }
+        }
         for (o, r) in &b.renders {
             if let Err(m) = r {
                 fails.push(json::obj(vec![("check", json::s("render-panic")), ("documents", J::A(bytes.iter().map(|x| json::bytes(x)).collect())), ("options", o.json()), ("what", json::s(m))]));
@@ -230,6 +240,29 @@ pub fn run_docprop(ctx: &mut Ctx, p: DocProp) {
     }
     let files = sh.finish();
     ctx.shards.extend(files);
+    {
+        let imports = "From XSG.Model Require Import Strings Necessity Element Render Reparse.\nFrom XSG.Corr Require Import Common Oracles ReparseCorr.\nFrom Coq Require Import String.";
+        let evals = vec![ev("reparse", "ev_reparse", "corr")];
+        let mut sh2 = Shards::new(&ctx.out, "reparse", imports, "reparsecase", evals, "show_reparse", 6);
+        // damaged variants too: both parsers must refuse (or accept) the same texts
+        let mut all: Vec<String> = vec![];
+        for t in &texts {
+            all.push(t.clone());
+            if all.len() % 5 == 0 {
+                all.push(t.replacen("pub struct ", "pub  struct ", 1));
+                all.push(t.replacen(": ", ":", 1));
+            }
+        }
+        for t in &all {
+            let rust = match crate::outp::parse_output(t) {
+                Ok(ps) => format!("(Some {})", crate::outp::coq_pstructs(&ps, &mut sh2.intern)),
+                Err(_) => "None".to_string(),
+            };
+            sh2.push(format!("Build_reparsecase {} {}", crate::emit::coq_str(t), rust), json::obj(vec![("kind", json::s("reparse")), ("text", json::s(t))]));
+        }
+        ctx.meta.push(("x_texts_reparsed_in_coq", J::N(all.len() as i64)));
+        ctx.shards.extend(sh2.finish());
+    }
     if p.with_chars {
         ctx.add_chars();
     }
